@@ -234,6 +234,7 @@ type RResult struct {
 	MaxRetained   int
 	RetainSamples int
 	Stalls        int
+	ServeStalled  int // frames handed to the socket that the open client had not taken after the limit
 }
 
 func (s *RSim) send(lane, tag int) error {
@@ -441,6 +442,15 @@ func (s *RSim) Run() *RResult {
 						s.Sock.Inject(&knxnet.SearchReq{})
 					}
 				}
+				if n.Kind == "ind" && n.Repeat >= 500 {
+					// a long burst: the script goes on once the client has taken all of it (the gated steps that
+					// follow assume a client that is not busy with earlier frames); a client that never does is
+					// reported at the end of the run
+					deadline := time.Now().Add(limit)
+					for s.Sock.Pending() > 0 && time.Now().Before(deadline) {
+						time.Sleep(200 * time.Microsecond)
+					}
+				}
 				sampleRetained()
 			}
 		}()
@@ -493,6 +503,18 @@ func (s *RSim) Run() *RResult {
 	lanes.Wait()
 	res.SendHung = atomic.LoadInt32(&sendHung) != 0
 	sampleRetained()
+	// the open client takes every frame from its socket, however many indications the application has left unread
+	// (a busy inhibit holds the serve loop for 50 ms at most, a pause for PostSendPause)
+	if p.CloseUs == 0 {
+		deadline := time.Now().Add(limit)
+		for s.Sock.Pending() > 0 && time.Now().Before(deadline) {
+			time.Sleep(200 * time.Microsecond)
+		}
+		if n := s.Sock.Pending(); n > 0 {
+			res.ServeStalled = n
+			s.add(REv{K: "note", Note: fmt.Sprintf("%d frames handed to the socket have not been taken by the client within %v", n, limit)})
+		}
+	}
 	if p.FinalLost && p.CloseUs == 0 && !res.SendHung {
 		s.lostAtQuiescence(65535, cap, limit)
 		sampleRetained()
@@ -641,19 +663,38 @@ func (s *RSim) busyAtIdle(n RNet, limit time.Duration) {
 		s.add(REv{K: "note", Note: "busy-idle: no quiescence (skipped)"})
 		return
 	}
+	before := atomic.LoadInt32(&s.dlvCount)
 	s.add(REv{K: "inj", Note: "busy-idle", N: n.WaitMs, Lane: n.Ctl, Tag: noTag})
 	if svc := fromWire(0x32, n.Status, n.WaitMs, n.Ctl); svc != nil {
 		s.Sock.Inject(svc)
 	} else {
 		s.Sock.Inject(&knxnet.RoutingBusy{WaitTime: time.Duration(n.WaitMs) * time.Millisecond, Control: uint16(n.Ctl)})
 	}
-	deadline := time.Now().Add(40 * time.Millisecond)
-	for time.Now().Before(deadline) {
-		if s.R.VerifSendLocked() {
+	// a frame the client ignores, queued right behind the indication: the serve loop takes it only after it has dealt
+	// with the indication completely (it handles one frame at a time) - from then on the inhibit is in force whether or
+	// not the probe below catches the lock held (a wait of a millisecond or two is over before the probe looks)
+	s.Sock.Inject(&knxnet.SearchRes{})
+	seen := false
+	until := time.Now().Add(2 * time.Second)
+	for time.Now().Before(until) {
+		if !seen && s.R.VerifSendLocked() {
+			seen = true
 			s.add(REv{K: "note", Note: "hold-observed"})
+		}
+		if atomic.LoadInt32(&s.dlvCount) >= before+2 {
+			if !seen && s.R.VerifSendLocked() {
+				seen = true
+				s.add(REv{K: "note", Note: "hold-observed"})
+			}
+			if !seen {
+				s.add(REv{K: "note", Note: "hold-missed"})
+			}
+			s.add(REv{K: "note", Note: "busy-handled"})
 			return
 		}
-		time.Sleep(50 * time.Microsecond)
+		time.Sleep(20 * time.Microsecond)
 	}
-	s.add(REv{K: "note", Note: "hold-missed"})
+	if !seen {
+		s.add(REv{K: "note", Note: "hold-missed"})
+	}
 }
